@@ -611,6 +611,31 @@ fn ts_of(t: &str) -> u64 {
     t.parse::<f64>().unwrap() as u64 // Rust's saturating float-to-int cast, as in `timestamp as u64`
 }
 
+/// Is the decimal text `[-]digits[.digits]` a multiple of 2^-`frac_bits` below 2^40 in magnitude?  Then the
+/// `f64` the real driver parses it into IS the rational the model parses it into, and (for time stamps,
+/// `frac_bits` = 10) every subtraction and window comparison of `decode_position` is exact in `f64`.
+fn exact_text(t: &str, frac_bits: u32) -> bool {
+    let body = t.strip_prefix('-').unwrap_or(t);
+    let (ip, fp) = body.split_once('.').unwrap_or((body, ""));
+    if ip.is_empty() || ip.len() > 13 || fp.len() > 20 || !ip.bytes().chain(fp.bytes()).all(|c| c.is_ascii_digit()) {
+        return false;
+    }
+    let Ok(num) = format!("{ip}{fp}").parse::<i128>() else { return false };
+    let den = 10i128.pow(fp.len() as u32);
+    (num << frac_bits) % den == 0 && num / den < (1i128 << 40)
+}
+
+/// `k / 1024` as an exact decimal text (at most 10 fractional digits)
+fn tick_text(k: i64) -> String {
+    let a = k.unsigned_abs();
+    let frac = (a & 1023) * 9_765_625; // 1/1024 = 0.0009765625
+    let mut s = format!("{}{}", if k < 0 { "-" } else { "" }, a >> 10);
+    if frac != 0 {
+        s.push_str(format!(".{frac:010}").trim_end_matches('0'));
+    }
+    s
+}
+
 /// The property, clause by clause, on what the program shows.  Returns the addresses shown and, per
 /// address, the indices of its records (for the non-interference re-runs).
 fn judge(out: &mut Out, sc: &Scenario, line: &str, ans: &Value) -> BTreeMap<String, Vec<usize>> {
@@ -710,7 +735,8 @@ fn scenario(rng: &mut Rng, thorough: bool) -> (Scenario, Vec<String>) {
             alt12: ((rng.below(1600) / 16) << 5) | 0x10 | rng.below(16),
         });
     }
-    let reference = if rng.chance(1, 2) { Some(format!("{:.4},{:.4}", base_lat, base_lon)) } else { None };
+    // dyadic (multiples of 1/1024 degree), so that the text is the f64 exactly (op `snapp`)
+    let reference = if rng.chance(1, 2) { Some(format!("{},{}", tick_text((base_lat * 1024.0).round() as i64), tick_text((base_lon * 1024.0).round() as i64))) } else { None };
     let maxlen = if thorough && rng.chance(1, 8) { 250 } else { 45 };
     let len = 1 + rng.below(maxlen) as usize;
     let mut t = match rng.below(4) {
@@ -719,6 +745,7 @@ fn scenario(rng: &mut Rng, thorough: bool) -> (Scenario, Vec<String>) {
         _ => 1000.0 + rng.f64() * 1e5,
     };
     let whole = rng.chance(1, 4);
+    let ticks = rng.chance(1, 2); // fractional time stamps as multiples of 1/1024 s (exact in f64: op `snapp`) or as milliseconds
     let mut recs = vec![];
     let mut kinds = vec![];
     // each scenario concentrates on a few kinds so that the same field is written repeatedly
@@ -735,11 +762,114 @@ fn scenario(rng: &mut Rng, thorough: bool) -> (Scenario, Vec<String>) {
             _ => t += rng.f64() * 2.0,
         }
         let tt = if rng.chance(1, 200) { -1.5 } else { t };
-        let text = if whole { format!("{}", tt.floor()) } else { format!("{:.3}", tt) };
+        let text = if whole {
+            format!("{}", tt.floor())
+        } else if ticks {
+            tick_text((tt * 1024.0).round() as i64)
+        } else {
+            format!("{:.3}", tt)
+        };
         recs.push((text, hex(&f)));
         kinds.push(kind.to_string());
     }
     (Scenario { reference, recs }, kinds)
+}
+
+/// Position-focused histories for the composed op `snapp` (frames + time stamps only; the model runs C06's
+/// CPR state machine itself).  Time stamps are ticks of 1/1024 s on per-aircraft clocks (so the gaps between
+/// an aircraft's own reports hit the windows exactly: 10 s and 180 s ± one tick), the receiver reference is
+/// dyadic; 1–4 aircraft, airborne / surface phases with arrivals and departures, DF17 and DF18 carriers,
+/// repeated parities, jumps around the 50 km gate, other message kinds in between (they must not create a
+/// CPR entry), arrival order by generation (time stamps of different aircraft not monotone) or sorted.
+fn scenario_positions(rng: &mut Rng, thorough: bool) -> Scenario {
+    let base_lat = rng.f64() * 150.0 - 75.0;
+    let base_lon = rng.f64() * 340.0 - 170.0;
+    let dy = |x: f64| tick_text((x * 1024.0).round() as i64);
+    let reference = match rng.below(4) {
+        0 => None,
+        1 | 2 => Some(format!("{},{}", dy(base_lat + (rng.f64() - 0.5) * 0.4), dy(base_lon + (rng.f64() - 0.5) * 0.4))),
+        _ => Some(format!("{},{}", dy(base_lat + (rng.f64() - 0.5) * 4.0), dy(base_lon + (rng.f64() - 0.5) * 8.0))), // maybe beyond half a surface zone
+    };
+    let t0: i64 = match rng.below(3) {
+        0 => rng.below(100 * 1024) as i64,
+        1 => 1_700_000_000 * 1024 + rng.below(1 << 30) as i64,
+        _ => 1000 * 1024 + rng.below(100_000 * 1024) as i64,
+    };
+    struct P {
+        ac: Ac,
+        t: i64,
+        surface: bool,
+        df18: bool,
+        vlat: f64, // degrees per second
+        vlon: f64,
+    }
+    let n_ac = 1 + rng.below(4) as usize;
+    let mut ps: Vec<P> = vec![];
+    for _ in 0..n_ac {
+        let addr = if !ps.is_empty() && rng.chance(1, 4) { ps[ps.len() - 1].ac.addr ^ (1 << rng.below(24)) } else { rng.below(1 << 24) as u32 };
+        if ps.iter().any(|p| p.ac.addr == addr) {
+            continue;
+        }
+        let kt = 100.0 + rng.f64() * 600.0;
+        let brg = rng.f64() * std::f64::consts::TAU;
+        ps.push(P {
+            ac: Ac { addr, lat: base_lat + (rng.f64() - 0.5) * 0.6, lon: base_lon + (rng.f64() - 0.5) * 0.6, odd: rng.chance(1, 2), alt12: ((rng.below(1600) / 16) << 5) | 0x10 | rng.below(16) },
+            t: t0 + rng.below(5 * 1024) as i64,
+            surface: rng.chance(1, 3),
+            df18: rng.chance(1, 5),
+            vlat: kt / 216000.0 * brg.cos(),
+            vlon: kt / 216000.0 * brg.sin() / base_lat.to_radians().cos().max(0.2),
+        });
+    }
+    let maxlen = if thorough && rng.chance(1, 8) { 200 } else { 60 };
+    let len = 1 + rng.below(maxlen) as usize;
+    let mut recs: Vec<(i64, String)> = vec![];
+    for _ in 0..len {
+        let i = rng.below(ps.len() as u64) as usize;
+        let p = &mut ps[i];
+        let dt: i64 = match rng.below(20) {
+            0 | 1 => 0,
+            2 | 3 => *rng.pick(&[10 * 1024 - 1, 10 * 1024, 10 * 1024 + 1, 9 * 1024, 11 * 1024]),
+            4 | 5 => *rng.pick(&[180 * 1024 - 1, 180 * 1024, 180 * 1024 + 1, 170 * 1024, 190 * 1024]),
+            6 => 300 * 1024 + rng.below(1700 * 1024) as i64,
+            7 => -(rng.below(3 * 1024) as i64),
+            8 | 9 | 10 => 2 * 1024 + rng.below(7 * 1024) as i64,
+            _ => 300 + rng.below(1700) as i64,
+        };
+        p.t += dt;
+        if rng.chance(1, 25) {
+            p.surface = !p.surface; // arrival / departure
+        }
+        let secs = (dt.max(0) as f64 / 1024.0).min(900.0);
+        if !p.surface {
+            p.ac.lat = (p.ac.lat + p.vlat * secs).clamp(-85.0, 85.0);
+            p.ac.lon += p.vlon * secs;
+            if p.ac.lon.abs() > 175.0 {
+                p.ac.lon = p.ac.lon.signum() * 175.0; // keep off the antimeridian (f64 seam, see notes/C12.md)
+                p.vlon = -p.vlon;
+            }
+        }
+        let carrier = if p.df18 { "18" } else { "17" };
+        let kind: String = if rng.chance(1, 6) {
+            rng.pick(&["17id", "17vel", "17other", "18id", "df4", "df5", "df11", "junk", "17status"]).to_string()
+        } else {
+            if rng.chance(1, 5) {
+                p.ac.odd = !p.ac.odd; // the same parity twice in a row
+            }
+            if rng.chance(1, 15) {
+                // a jump around the 50 km plausibility gate (0.4497 deg of latitude = 50.0 km)
+                let d = *rng.pick(&[0.40, 0.44, 0.449, 0.4497, 0.45, 0.46, 0.6, 0.9]);
+                p.ac.lat = (p.ac.lat + if rng.chance(1, 2) { d } else { -d }).clamp(-85.0, 85.0);
+            }
+            format!("{carrier}{}", if p.surface { "surf" } else { "air" })
+        };
+        let f = frame(rng, &mut p.ac, &kind);
+        recs.push((p.t, hex(&f)));
+    }
+    if rng.chance(1, 2) {
+        recs.sort_by_key(|r| r.0);
+    }
+    Scenario { reference, recs: recs.into_iter().map(|(t, f)| (tick_text(t), f)).collect() }
 }
 
 fn parse_line(line: &str) -> Option<Scenario> {
@@ -791,6 +921,28 @@ fn process(out: &mut Out, jet: &mut Jet, scs: &[Scenario]) {
             .map(|((t, f), r)| rx_token(ts_of(t), f, &r["pre"]))
             .collect();
         out.case(&format!("snapf {}", rxs.join(" ")), &table_text(&j["table"], canon));
+        // the same history from the frames and time stamps ALONE: the model also runs decode_position (C06's
+        // model, composed in Model/Pipeline.lean).  Only when the texts are the doubles exactly, and away from
+        // the antimeridian (the f64 global decode can return 179.99999999999997 where the exact value is -180)
+        let exact = sc.recs.iter().all(|(t, _)| exact_text(t, 10))
+            && sc.reference.as_ref().is_none_or(|r| r.split(',').all(|c| exact_text(c, 20)));
+        let seam = j["records"].as_array().unwrap().iter().any(|r| r["pre"].get("longitude").and_then(|x| x.as_f64()).is_some_and(|x| x.abs() > 179.999));
+        if !exact {
+            out.stat("snapp:not-emitted-inexact-text");
+        } else if seam {
+            out.stat("snapp:not-emitted-antimeridian");
+        } else {
+            let toks: Vec<String> = sc.recs.iter().map(|(t, f)| format!("{t}:{f}")).collect();
+            let r = sc.reference.as_ref().map(|r| format!(" @{r}")).unwrap_or_default();
+            out.case(&format!("snapp{r} {}", toks.join(" ")), &table_text(&j["table"], canon));
+            out.stat("snapp:emitted");
+            for r in j["records"].as_array().unwrap() {
+                let bds = r["pre"]["bds"].as_str().unwrap_or("");
+                if bds == "05" || bds == "06" {
+                    out.stat(&format!("snapp:df{}/bds{bds}:{}", r["pre"]["df"].as_str().unwrap_or("?"), if r["pre"].get("latitude").is_some_and(|x| !x.is_null()) { "position" } else { "none" }));
+                }
+            }
+        }
         out.stat_n("records", sc.recs.len() as u64);
         out.stat_n("aircraft", own.len() as u64);
         for r in j["records"].as_array().unwrap() {
@@ -856,6 +1008,15 @@ pub fn run(out: &mut Out, rng: &mut Rng, thorough: bool) {
     while done < total {
         let n = (total - done).min(500);
         let scs: Vec<Scenario> = (0..n).map(|_| scenario(rng, thorough).0).collect();
+        process(out, &mut jet, &scs);
+        done += n;
+    }
+    // position-focused histories (op `snapp`: C06's model composed into the pipeline)
+    let total = if thorough { 3000 } else { 400 };
+    let mut done = 0;
+    while done < total {
+        let n = (total - done).min(500);
+        let scs: Vec<Scenario> = (0..n).map(|_| scenario_positions(rng, thorough)).collect();
         process(out, &mut jet, &scs);
         done += n;
     }
